@@ -644,6 +644,35 @@ def selftest_corrupted(rep, cl_trace, sv_events, d):
             ev['log'].append({'off': len(ev['log']), 'id': i + 1})
             cases.append(('refused_message_in_log', ev, 'C16_RejectNotStored'))
             break
+    # (iv) who publishes: a stored message of a publisher without ack inbox is taken out of the log - one that waived
+    # the check, and a conditional one with the right expectation followed directly by its publisher's fence
+    def without(e, pos):
+        ev = json.loads(json.dumps(e))
+        del ev['log'][pos]
+        for k, x in enumerate(ev['log']):
+            x['off'] = k
+        return ev
+    for want, name, cond in (('C16_WaivedAccepted', 'silent_waived_taken_out', lambda m: m['exp'] == -1),
+                             ('C16_UnstoredJustified', 'silent_conditional_taken_out', lambda m: m['exp'] != -1)):
+        found = False
+        for e in rounds:
+            if found:
+                break
+            for pos, x in enumerate(e['log']):
+                m = e['msgs'][x['id'] - 1] if 0 < x['id'] <= len(e['msgs']) else None
+                if not m or m.get('via') != 'natsq' or not cond(m):
+                    continue
+                if m['exp'] != -1:
+                    nxt = e['log'][pos + 1] if pos + 1 < len(e['log']) else None
+                    f = e['msgs'][nxt['id'] - 1] if nxt and 0 < nxt['id'] <= len(e['msgs']) else None
+                    prev = e['msgs'][e['log'][pos - 1]['id'] - 1] if pos > 0 and e['log'][pos - 1]['id'] > 0 else None
+                    if not (f and f.get('kind') == 'fence' and f['p'] == m['p'] and f.get('via') == 'nats'):
+                        continue
+                    if pos > 0 and not (prev and prev['res'] == 'ok' and prev['ackT'] < m['sendT']):
+                        continue
+                cases.append((name, without(e, pos), want))
+                found = True
+                break
     if cases:
         f = os.path.join(d, 'corrupt-sv.ndjson')
         with open(f, 'w') as fh:
